@@ -36,13 +36,14 @@ P = {
          "PARTIAL by nature: zero allocation is a property of what the gc compiler emits. Proved: no trace of the over-approximating effect semantics of the regenerated summary contains an allocating event for any of the 46 exported functions; "
          "views proved for Spec and checked by pointer on every correspondence case. Assumed and measured: that the summary over-approximates the compiled code (translator T3, allow-list of leaf functions, escape verdicts honoured); "
          "mallocs per call over 108 shapes (0 B .. 70 KB quick / 300 KB thorough, long needles, ill-formed, each fallback strategy) x 46 functions x 3 CPU-feature configurations."),
- "C06": ("proof", "4.C06", "Coq proof (Ok-totality of Impl where modelled, range theorems for Spec) + panic/hang/range observation on ill-formed corpus",
-         "Totality (Impl returns Ok: no Panic from a bounds check, no OutOfFuel) follows from the refinement theorems for Compare, EqualFold, HasPrefix, TrimPrefix, CutPrefix, HasSuffix, TrimSuffix, CutSuffix, "
-         "IndexByte, IndexByteASCII, IndexRune, ContainsRune, Index, Contains (incl. brute force, main loop and Rabin-Karp), Count (every needle) and Cut; LastIndex, LastIndexByte, IndexAny, ContainsAny, LastIndexAny; IndexNonASCII/ContainsNonASCII are their scalar definition by construction the theorem is the range of the Spec value and the absence of panics/hangs is observed "
-         "(recover, watchdog) on a dense ill-formed corpus incl. exhaustive small alphabets. Reads outside the arguments: every exported function is called with its arguments flush against PROT_NONE pages on both sides."),
- "C07": ("proof", "4.C07", "Coq proof (package-shape parity of Impl where modelled, exported sets equal, _lower tables equal) + direct parity comparison of both packages",
-         "Both packages are compared with each other and with the same extracted Spec on every generated case of all 23 functions; parity of the two source shapes follows where both shapes are proved to refine the same Spec "
-         "(Compare, EqualFold, prefix family, suffix family, Index, Contains, LastIndex, Count general loop, Cut, single-character searches; the Any family has a single source shape)."),
+ "C06": ("proof", "4.C06", "Coq proof (Ok-totality of the structure-faithful models of all 23 functions as corollaries of the refinement theorems; range theorems for Spec) + panic/hang/range observation on ill-formed corpus + guard-page sweep of the API",
+         "C06_total_two_strings / C06_total_string_rune_byte: for every byte string (well-formed or not), every rune/byte argument, both package shapes and every configuration, the model of each exported function returns Ok: "
+         "no bounds check of a slice expression fails (Panic is a visible result of the models) and no loop runs past its fuel. Returned offsets lie in [-1, len s] and sub-slices inside s (range theorems for Spec, which the models equal). "
+         "For the code itself: absence of panics/hangs is observed (recover, watchdog) on a dense ill-formed corpus incl. exhaustive small alphabets, and reads outside the arguments by calling every exported function with its arguments flush against PROT_NONE pages on both sides."),
+ "C07": ("proof", "4.C07", "Coq proof (exported sets equal, _lower tables equal, Compare/EqualFold shape parity; supporting: shape parity of every function whose source differs) + direct parity comparison of both packages",
+         "Both packages are compared with each other and with the same extracted Spec on every generated case of all 23 functions. C07's own obligations (exports, _lower, Compare/EqualFold) are kept independent of the tables' orbit facts; "
+         "the supporting theorem C07x_model_parity (Properties/C07x.v, listed in the evidence) proves that the strcase-shaped and the bytcase-shaped model of every function whose source differs between the packages "
+         "(Compare, EqualFold, prefix and suffix families, Index, LastIndex, Count, Cut) return the same value on every pair of byte strings, because both refine the same Spec function."),
  "C08": ("proof", "4.C08", "Coq proof over executable model + differential correspondence", "As C01 for LastIndex (rightmost), plus Index<=LastIndex and same-match-set theorems. The structure-faithful model Impl7.LastIndex (LastIndexByte for one ASCII byte, lastIndexRune for one code point, the length pre-check, indexRabinKarpRevUnicode with hashStrRevUnicode and the DecodeLastRune / ASCII-shortcut steps) is PROVED to compute Spec.last_index on every pair of byte strings (C08_lastindex_refines: both package shapes, every prime; never Panic, never OutOfFuel); utf8.DecodeLastRune is proved to yield the last forward segment for arbitrary bytes (Utf8Last). The model runs against the code and its unexported strategies on every check."),
  "C09": ("proof", "4.C09", "Coq proof over executable model + differential correspondence", "Prefix/suffix tests and the exact cut points of Trim*/Cut* proved for Spec on all byte strings, and all six functions' structure-faithful models (both package shapes) are proved to compute exactly those Spec functions on all byte strings (Refine_Prefix, Refine_Suffix); returned sub-slices are compared by position."),
  "C10": ("proof", "4.C10", "Coq proof over executable model + differential correspondence (every code point as needle)", "First-member-of-orbit characterisation of index_rune and the byte-pattern characterisation of IndexByte proved; IndexRune, ContainsRune, IndexByte, IndexByteASCII and the unexported indexRuneCase/indexRune/indexRune2/indexByte models are proved to refine them for every rune/byte argument, every cut-over function and both NativeIndex values (self-synchronisation of UTF-8 proved for arbitrary bytes; FoldMap/ToUpperLower candidate sets proved equal to the folding orbit on the regenerated tables). LastIndexByte (byte walks for non-letters and plain letters, the code-point walk for K k S s) is proved to return the last raw offset at which one of the byte patterns starts (C10_lastindexbyte_refines, C10_last_index_byte_spec). Every orbit-bearing code point and a stride of the others run as needle and haystack member."),
